@@ -10,8 +10,10 @@ import (
 	"github.com/gogf/gf/v2/net/ghttp"
 )
 
-// drives SentinelMiddleware through a real ghttp.Server (ServeHTTP + httptest, the
-// server is never started, so nothing listens). A ghttp handler returns nothing and
+// drives SentinelMiddleware through a real ghttp.Server: requests go through
+// s.ServeHTTP with httptest (as the adapter's own tests do). The server has to be
+// started once (Start initialises the session manager ServeHTTP needs); it binds
+// 127.0.0.1:0 but no request uses the socket. A ghttp handler returns nothing and
 // r.Middleware.Next() returns nothing: errVisible=false. ghttp itself recovers
 // handler panics (-> 500). Default resource = METHOD:URL.Path.
 var c19GfSeq int
@@ -22,10 +24,17 @@ func c19GfServer(path string, h ghttp.HandlerFunc, opts ...Option) *ghttp.Server
 	s.SetErrorLogEnabled(false)
 	s.SetAccessLogEnabled(false)
 	s.SetErrorStack(false)
+	s.SetDumpRouterMap(false)
+	s.SetLogStdout(false)
+	s.Logger().SetStdoutPrint(false)
+	s.SetAddr("127.0.0.1:0")
 	s.Group("/", func(group *ghttp.RouterGroup) {
 		group.Middleware(SentinelMiddleware(opts...))
 		group.GET(path, h)
 	})
+	if err := s.Start(); err != nil {
+		panic(err)
+	}
 	return s
 }
 
@@ -55,6 +64,7 @@ func TestVerifC19Goframe(t *testing.T) {
 						r.Response.Write("ok")
 					}
 				}, opts...)
+				defer s.Shutdown()
 				res := "GET:/c19/7"
 				if blocked {
 					c19SetBlocked(res)
@@ -81,6 +91,7 @@ func TestVerifC19Goframe(t *testing.T) {
 	calls := 0
 	s := c19GfServer("/x/:id", func(r *ghttp.Request) { calls++; r.Response.Write("ok") },
 		WithResourceExtractor(func(r *ghttp.Request) string { return "c19-custom-" + r.Get("id").String() }))
+	defer s.Shutdown()
 	for _, blocked := range []bool{false, true} {
 		calls = 0
 		if blocked {
